@@ -43,6 +43,9 @@ AuthSyms == {[SSes("authenticating", i) EXCEPT !.sopts = "guest,plain"] : i \in 
 EstSyms  == {[SSes("established", i) EXCEPT !.frm = "srv", !.to = "me"] : i \in Ids}
             \cup {SSes("established", "s1")}
 OtherSyms == {[SSes("failed", i) EXCEPT !.reason = "y"] : i \in Ids}
+             \* a terminal answer that still carries negotiation fields (nothing is to be applied any more)
+             \cup {[SSes("failed", "s1") EXCEPT !.reason = "y", !.enc = "tls", !.comp = "none"],
+                   [SSes("finished", "s1") EXCEPT !.enc = "tls", !.comp = "none"]}
              \cup {SSes("finished", "s1"), SSes("finishing", "s1"), SSes("new", "s1"), SSes("new", "none")}
 Noise == {In(x) : x \in {"msg", "garbage", "junk", "eof"}}
 Syms == NegSyms \cup AuthSyms \cup EstSyms \cup OtherSyms \cup Noise
